@@ -98,7 +98,11 @@ def run_case(case):
       states.append(s)
     if case['fresh_target']:
       states = [fn.create_state()] + states
-    mstate = _guard(lambda: fn.merge_states(states), f'{what}: merge_states over {len(states)} states')
+    # the states arrive as a list, a tuple, a one-shot iterator or a generator (what a streaming orchestration layer hands over)
+    as_ = case.get('states_as', 'list')
+    given = {'list': lambda: states, 'tuple': lambda: tuple(states), 'iter': lambda: iter(states),
+             'gen': lambda: (s_ for s_ in states)}[as_]()
+    mstate = _guard(lambda: fn.merge_states(given), f'{what}: merge_states over {len(states)} states given as {as_}')
     if e.compare == 'sampler':
       msg = e.sampler_ok(cfg, mstate, all_rows)
       check(msg is None, f'sampler-invariant:{e.name}', f'{what}: merged sampler state: {msg}')
@@ -143,6 +147,11 @@ def strat(tier):
     e = entry_for(e0.name)
     cfg = draw(e.cfg())
     rows = draw(st.lists(e.row(cfg), min_size=1, max_size=maxrows))
+    if draw(st.integers(0, 5)) == 0:
+      # a long dataset (a short pattern repeated) crossing the sizes code tends to treat specially: 2**7, 2**8, ...
+      base = rows[:5]
+      n = draw(st.sampled_from([127, 128, 129, 255, 256, 257, 300]))
+      rows = (base * (n // len(base) + 1))[:n]
     nsh = draw(st.integers(1, 4))
     cuts = sorted(draw(st.lists(st.integers(0, len(rows)), min_size=nsh - 1, max_size=nsh - 1)))
     bounds = [0] + cuts + [len(rows)]
@@ -159,7 +168,8 @@ def strat(tier):
       # batches that were dropped for being empty must not lose rows: they are empty by construction
       shards.append(batches)
     api = draw(st.sampled_from(list(e.apis)))
-    return {'entry': e.name, 'cfg': cfg, 'shards': shards, 'api': api, 'fresh_target': draw(st.booleans())}
+    return {'entry': e.name, 'cfg': cfg, 'shards': shards, 'api': api, 'fresh_target': draw(st.booleans()),
+            'states_as': draw(st.sampled_from(['list', 'list', 'tuple', 'iter', 'gen']))}
   return s()
 
 
